@@ -313,11 +313,26 @@ def b_coverage(b, t=None, extra=None):
            "replay_requests": b["requests"], "configurations": b["cfgs"], "max_input_chars": b["maxlen"], "alphabet_chars": b["nchars"],
            "rule": "LexSpec.tla: every input of at most max_input_chars characters over a per-definition alphabet (chosen from the blocks the graph reacts to, one 'other' and one multi-byte character); "
                    "invariants + liveness checked by TLC; every behaviour replayed one-shot, partial on every prefix and chunked on the compiled lexers"}
+    if b.get("graphlex"):
+        cov["graphlex_model_of_generated_code"] = {k: b["graphlex"][k] for k in ("states", "distinct", "depth", "ok")}
+        cov["states"] += b["graphlex"]["distinct"]
+        cov["transitions"] += b["graphlex"]["states"]
     if t:
-        cov.update({"trace_events_validated": t["events_consumed"], "trace_runs": t["runs"], "distinct_traces": t["distinct_traces"]})
+        cov.update({"trace_events_validated": t["events_consumed"], "trace_runs": t["runs"], "distinct_traces": t["distinct_traces"],
+                    "graphtrace_traces_matching_the_model_exactly": t.get("graphtrace_accepted"), "graphtrace_events": t.get("graphtrace_events")})
     if extra:
         cov.update(extra)
     return cov
+
+
+def drift_lines(b=None, t=None):
+    out = []
+    if b and b.get("graphlex") and not b["graphlex"]["ok"]:
+        out.append("GraphLex.tla (model of the generated code on the captured graphs) violates one of its invariants: " + b["graphlex"]["tail"][-400:].replace("\n", " | "))
+    if t:
+        for dr in t.get("drift", [])[:5]:
+            out.append("GraphTrace: hooked call differs from the GraphLex model on %s input=%s partial=%s at event %s" % (dr["def"], dr["input"], dr["partial"], json.dumps(dr["event"])))
+    return out
 
 
 ASSUME_B = ASSUME_A[:3] + ["inputs are bounded in length for the sequence-level enumeration (unbounded length is covered per attempt by Attempt.tla) and random/structured for trace validation"]
@@ -341,6 +356,7 @@ def check_C03(tier, seed, rest):
             if m["accepted"]:
                 v.append({"key": "%s:nullable-accepted" % m["id"], "what": "definition with a pattern matching the empty string was accepted", "definition": m["src"]})
     drift = ["model-level %s on %s path=%s" % (x["tag"], x["id"], x["path"]) for x in a["viol"] if x["tag"] in ("TRoot", "TProg", "TNullable")][:10]
+    drift += drift_lines(b, t)
     finish("C03", tier, seed, "model_checking", b_coverage(b, t, {"nullable_definitions_checked_rejected": n_null,
            "spec_properties": "Progress, Ordered, Gaps, EndsAtLen (invariants), Variant (action property), Terminates (<>done under WF)"}), v, t0, ASSUME_B, drift)
 
@@ -390,7 +406,7 @@ def check_C20(tier, seed, rest):
     v += adv["violations"]
     cov = b_coverage(b, t, {"adversarial": adv["summary"],
                             "spec_properties": "Read conjuncts of LexTrace: offset >= last offset of the attempt, #reads <= 4*(bytes examined)+8, next starts at the end of the last item"})
-    finish("C20", tier, seed, "model_checking", cov, v, t0, ASSUME_B)
+    finish("C20", tier, seed, "model_checking", cov, v, t0, ASSUME_B, drift_lines(b, t))
 
 
 def adversarial_reads(tier, seed):
